@@ -27,4 +27,4 @@ LEVEL_TEXT = ("Per function, for every socket state: operations that report erro
               "non-blocking connect in progress reports in-progress/would-block; setters/getters (timeout clamp, backlog frozen while listening, keepalive only on setsockopt success, "
               "shutdown(both) clears connected). 'Always reflect the calls made so far' follows by induction over the per-call contracts (paper step).")
 LEVEL_NOTE = ("Trusted: env/sockets.c (kernel: poll waits the full timeout before returning 0; fcntl get/set-fd cannot fail on a live descriptor; a failing close leaves the descriptor open), "
-              "error stub, allocator model. Elapsed wall time is not modelled. Bit-field frames are pinned by explicit ensures because DFCC assigns targets cover whole storage units.")
+              "error stub, allocator model. Elapsed wall time is not modelled. Bit-field frames are pinned by explicit ensures because DFCC assigns targets cover whole storage units. Address getters (unit get_addresses): open sockets only -- on a closed socket the real code hands fd -1 to getsockname/getpeername and reports EBADF; that is outside the I/O calls the property speaks about and outside the unit.")
